@@ -70,6 +70,22 @@ checks['C15']['text']+=' Runtime half: a real node with SPI calls parked on thei
 checks['C19']['engine']='unit+rt'; checks['C19']['note']=UNIT_NOTE+" "+RT_NOTE
 checks['C19']['text']+=' System level: the real trigger decorated in live networks: an election action reaches the term only for the currently registered pair, once per arming, not before the timeout.'
 
+
+# ---- round-5 extensions
+checks['C02']['engine']='unit+rt'; checks['C02']['note']=UNIT_NOTE+" HMAC key manager as signature scheme. "+RT_NOTE
+checks['C02']['technique']+='; overlapping validations on one node under the Go race detector'
+checks['C02']['text']+=' Committees keyed by the previous block\'s reference time in half of the worlds. Runtime half: a fixed list of certificates with reference verdicts validated by 4..8 goroutines at once on one node in the race-built driver (ValidateBlockConsensus is called from the consumer\'s goroutines): every answer judged, a data race on library state is a violation.'
+FAR=' Far views: a scripted single-node workload at views next to 2^31, 2^32, 2^63 and 2^64-1 (election with prepared proofs on both sides of those boundaries, adoption, prepared state, election timeouts up to and including the one fired in view 2^64-1) judged by the same monitors.'
+checks['C09']['text']+=FAR
+checks['C13']['text']+=FAR+' Scripted commits on the real runtime with a parked commit callback and node syncs arriving in that window.'
+checks['C18']['text']+=FAR+' Role decisions (who may send PREPARE / PREPREPARE / collect votes for a view) judged against position view mod n, also for views ahead of the receiver.'
+checks['C12']['text']+=' Also: PREPARE / COMMIT correctly signed by a committee member whose hash length field wraps past 2^32 (fails in the first lazy reader), followed by a probe of the node\'s storage accessors (a lock leaked by a recovered panic); a differential script (valid traffic with and without malformed messages inserted, also ahead of the cached batch: every effect of the control copy must appear); node sync with height 2^64-1 followed by a sync that must still take effect.'
+checks['C14']['text']+=' Second scenario: a node following a scripted committee commits by consensus while its commit callback is parked and syncs (below / at / above the height, bursts, 2^64-1) arrive in that window; a sync below the current height must not change the outcome of the commit.'
+checks['C15']['text']+=' Validations parked too (view-0 proposal, fresh block of a NEW_VIEW for the view the node timed out into); the commit callback\'s context judged under syncs and shutdown.'
+checks['C16']['text']+=' Plus scripted shutdowns while the transport is slow inside the send of the node\'s COMMIT (no library goroutine may still be in SendConsensusMessage when WaitUntilShutdown returns) and while the commit callback waits on the context it was handed.'
+checks['C06']['text']+=' Committees of 65..204 members with id multisets repeating members at any position.'
+checks['C20']['text']+=' The block travelling next to the content is compared on the typed message parsed back and after a second raw->typed->raw leg.'
+
 def cmd(pid, tier):
     return "./check %s --tier %s" % (pid, tier)
 
@@ -84,8 +100,8 @@ manifest = {
   "add_only": True,
  },
  "engines": [
-  {"name": "sim", "path": "sim/", "serves_properties": ["C01","C03","C04","C05","C07","C08","C09","C10","C11","C12","C13","C18"], "kind_free_text": "deterministic single-threaded scheduler over N real WorkerLoops (verif hooks), Byzantine adversary with own keys + replay, online monitors over the SPI event log"},
-  {"name": "rt", "path": "rt/", "serves_properties": ["C12","C13","C14","C15","C16","C19"], "kind_free_text": "real MainLoop + WorkerLoop + timer trigger of 1..5 nodes in child processes built with -race: router with loss/dup/delay, parking SPI fakes, log-keyed delay injection, API driver, main-loop barrier and worker-iteration witness"},
+  {"name": "sim", "path": "sim/", "serves_properties": ["C01","C03","C04","C05","C07","C08","C09","C10","C11","C12","C13","C17","C18"], "kind_free_text": "deterministic single-threaded scheduler over N real WorkerLoops (verif hooks), Byzantine adversary with own keys + replay, online monitors over the SPI event log"},
+  {"name": "rt", "path": "rt/", "serves_properties": ["C02","C05","C12","C13","C14","C15","C16","C19"], "kind_free_text": "real MainLoop + WorkerLoop + timer trigger of 1..5 nodes in child processes built with -race: router with loss/dup/delay, parking SPI fakes, log-keyed delay injection, API driver, main-loop barrier and worker-iteration witness"},
   {"name": "unit", "path": "unit/", "serves_properties": ["C02","C06","C15","C17","C18","C19","C20"], "kind_free_text": "real function / component run on generated and enumerated inputs next to an independent reference oracle (math/big, sequential models, semantic re-parse)"},
  ],
  "checks": [],
